@@ -168,6 +168,8 @@ func (c CounterStyle) renderValue(counterValue int, counter *CounterStyleDescrip
 		negativePrefix, negativeSuffix string
 		useNegative                    bool
 	)
+	// the fallback styles must be given the original (signed) value
+	originalValue := counterValue
 	isNegative := counterValue < 0
 	if isNegative {
 		vs := counter.Negative
@@ -189,38 +191,38 @@ func (c CounterStyle) renderValue(counterValue int, counter *CounterStyleDescrip
 	case "cyclic":
 		initial, ok = repeating(counter.Symbols, counterValue)
 		if !ok {
-			return c.RenderValue(counterValue, "decimal")
+			return c.RenderValue(originalValue, "decimal")
 		}
 	case "fixed":
 		if len(counter.Symbols) == 0 {
-			return c.RenderValue(counterValue, "decimal")
+			return c.RenderValue(originalValue, "decimal")
 		}
 		initial, ok = nonRepeating(counter.Symbols, fixedNumber, counterValue)
 		if !ok {
-			return c.renderValue(counterValue, c.resolveCounter(counter.fallback(), previousTypes), previousTypes)
+			return c.renderValue(originalValue, c.resolveCounter(counter.fallback(), previousTypes), previousTypes)
 		}
 	case "symbolic":
 		initial, ok = symbolic(counter.Symbols, counterValue)
 		if !ok {
-			return c.RenderValue(counterValue, "decimal")
+			return c.RenderValue(originalValue, "decimal")
 		}
 	case "alphabetic":
 		initial, ok = alphabetic(counter.Symbols, counterValue)
 		if !ok {
-			return c.RenderValue(counterValue, "decimal")
+			return c.RenderValue(originalValue, "decimal")
 		}
 	case "numeric":
 		initial, ok = numeric(counter.Symbols, counterValue)
 		if !ok {
-			return c.RenderValue(counterValue, "decimal")
+			return c.RenderValue(originalValue, "decimal")
 		}
 	case "additive":
 		if len(counter.AdditiveSymbols) == 0 {
-			return c.RenderValue(counterValue, "decimal")
+			return c.RenderValue(originalValue, "decimal")
 		}
 		initial, ok = additive(counter.AdditiveSymbols, counterValue)
 		if !ok {
-			return c.renderValue(counterValue, c.resolveCounter(counter.fallback(), previousTypes), previousTypes)
+			return c.renderValue(originalValue, c.resolveCounter(counter.fallback(), previousTypes), previousTypes)
 		}
 	}
 
@@ -255,7 +257,12 @@ func repeating(symbols []pr.NamedString, value int) (string, bool) {
 	if len(symbols) == 0 {
 		return "", false
 	}
-	return symbol(symbols[(value-1)%len(symbols)]), true
+	// the index is taken modulo the number of symbols, also for zero or negative values
+	index := (value - 1) % len(symbols)
+	if index < 0 {
+		index += len(symbols)
+	}
+	return symbol(symbols[index]), true
 }
 
 // Implement the algorithm for `type: non-repeating`.
@@ -270,7 +277,7 @@ func nonRepeating(symbols []pr.NamedString, firstValue, value int) (string, bool
 
 // Implement the algorithm for `type: symbolic`.
 func symbolic(symbols []pr.NamedString, value int) (string, bool) {
-	if len(symbols) == 0 {
+	if len(symbols) == 0 || value < 1 { // only defined on positive values
 		return "", false
 	}
 	L := len(symbols)
@@ -328,6 +335,9 @@ func additive(symbols []pr.IntNamedString, value int) (string, bool) {
 	}
 	var parts []string
 	for _, vs := range symbols {
+		if vs.Int == 0 || vs.Int > value {
+			continue
+		}
 		repetitions := value / vs.Int
 		parts = append(parts, strings.Repeat(symbol(vs.NamedString), repetitions))
 		value -= vs.Int * repetitions
